@@ -159,7 +159,7 @@ def accepted : Except Err Cfg → Option Cfg
 theorem keepAlive_doc (raw : RawConfig) (hf : Fits raw) :
     keepAliveOf raw = if raw.keepAlive > 0 then raw.keepAlive * Spec.second else -1 := by
   obtain ⟨c, v, _⟩ := gen_numeric raw.keepAlive 0 0
-  unfold keepAliveOf
+  unfold keepAliveOf keepAliveWith
   by_cases h : raw.keepAlive ≤ 0
   · rw [if_pos (c.mpr h), v, if_neg (by omega)]; exact wrap64_id _ (by unfold In64; omega)
   · have hc : ¬ Gen.ClientCfg.keepAliveOffCond raw.keepAlive = true := fun e => h (c.mp e)
@@ -234,7 +234,7 @@ empty alternative names dropped and `ServerName` appended; the five method names
 theorem c20_doc (lower : String → String) (raw : RawConfig) (hf : Fits raw) :
     accepted (processRaw lower raw) = Spec.processDoc lower raw := by
   obtain ⟨mt, _⟩ := gen_tables
-  unfold processRaw Spec.processDoc
+  unfold processRaw processRawK Spec.processDoc
   simp only [gen_pubkey, mt, List.length_eq_zero_iff]
   by_cases h1 : raw.serverName = ""
   · simp [h1, accepted]
@@ -293,7 +293,7 @@ theorem c20_reject (lower : String → String) (raw : RawConfig)
          caseOf Spec.methods (lower raw.encryptionMethod) = none) :
     isError (processRaw lower raw) := by
   obtain ⟨mt, _⟩ := gen_tables
-  unfold processRaw
+  unfold processRaw processRawK
   simp only [gen_pubkey, mt, List.length_eq_zero_iff]
   by_cases h1 : raw.serverName = ""
   · simp [h1, isError]
@@ -333,6 +333,26 @@ def pinnedKeepAliveOnVal (_rawKeepAlive remoteKeepAlive : Int) : Int := remoteKe
 /-- with the destination field at its zero value a 5-second keep-alive becomes 0 (Go's default
 keep-alive), not 5 s: the documented statement is false for the pinned right-hand side -/
 theorem pinned_keepalive : pinnedKeepAliveOnVal 5 0 = 0 ∧ pinnedKeepAliveOnVal 5 0 ≠ 5 * Spec.second := by decide
+
+/-- the statement of `c20_doc` is **false** for the pinned KeepAlive statement: a complete configuration with
+`KeepAlive = 5` (the harness replays it: signature `C20 keepalive-positive-ignored`) -/
+theorem pinned_doc_false :
+    ¬ ∀ (lower : String → String) (raw : RawConfig), Fits raw →
+      accepted (processRawK (keepAliveWith pinnedKeepAliveOnVal) lower raw) = Spec.processDoc lower raw := by
+  intro h
+  have h5 := h demoLower ⟨"bing.com", "ss", "plain", [1], List.replicate 32 7, 4, "127.0.0.1", "1984", "1.2.3.4", "443",
+      [], false, "", "", "", "", 0, 5⟩ (by simp [Fits, In64])
+  have hk : ∀ c d : Cfg, some c = some d → c.keepAlive = d.keepAlive := by
+    intro c d e; cases e; rfl
+  obtain ⟨mt, _⟩ := gen_tables
+  obtain ⟨c, _⟩ := gen_numeric 5 0 0
+  have hc : Gen.ClientCfg.keepAliveOffCond 5 = false := by
+    cases hb : Gen.ClientCfg.keepAliveOffCond 5
+    · rfl
+    · have := c.mp hb; omega
+  simp only [processRawK, Spec.processDoc, gen_pubkey, mt, demoLower, caseOf, Spec.methods, accepted,
+    keepAliveWith, hc, pinnedKeepAliveOnVal, wrap64, toS64, toU64, Spec.second] at h5
+  simp at h5
 
 /-! ## 6. The option-string syntax -/
 
@@ -540,5 +560,6 @@ end C20
 
 #print axioms C20.c20_doc
 #print axioms C20.c20_reject
+#print axioms C20.pinned_doc_false
 #print axioms C20.c20_ssv_partial
 #print axioms C20.gen_structure
